@@ -14,7 +14,7 @@ pub fn n_cases(ctx: &Ctx) -> u64 {
     let base = match (ctx.variant.as_str(), ctx.thorough()) {
         ("dbg", false) => 500,
         ("dbg", true) => 5000,
-        (_, false) => 5000,
+        (_, false) => 12000,
         (_, true) => 60000,
     };
     STEER + ctx.scaled(base)
